@@ -222,7 +222,7 @@ func init() {
 			"thorough": "same as quick",
 		},
 		Outside:     []string{"more than two goroutines or more than one operation per goroutine", "control flow that depends on the other goroutine's writes beyond the two pre-states (cold, warm)", "interleavings in which both operations are split (A1 B1 A2 B2): only those where one operation runs whole inside a gap of the other are executed; together with race freedom this covers every schedule of operations with at most one critical section each and the nesting schedules of the others", "the Go scheduler and memory model, races inside library code (regexp, bufio, sync.Pool itself)", "a reported potential race is replayed with go test -race on a stress test; only a reproduced report is a violation"},
-		Assumptions: []string{"sync.Mutex/RWMutex give mutual exclusion and release->acquire ordering", "sync.Pool hands an object to one goroutine at a time between Get and Put", "locations are (object, first field) pairs; the file offset and the read buffer are locations of the file model"},
+		Assumptions: []string{"sync.Mutex/RWMutex give mutual exclusion and release->acquire ordering", "sync.Pool hands an object to one goroutine at a time between Get and Put; in the interleaving jobs Get hands out a new object (one of the behaviours the documentation allows)", "interleaving points: every mutex release and every file operation made while no mutex is held", "locations are (object, first field) pairs; the file offset and the read buffer are locations of the file model"},
 		Rule:        "one trace per feasible path of one operation; one solver query per conflicting access pair and trace pair over integer clocks of the sync events",
 		Extra: func(rc *RunCtx) {
 			tt := sym.NewTermTable()
